@@ -28,17 +28,67 @@ FLOORS = {
 }
 
 
-def make_recording_env(case, is_async, log_lookups, log_loads):
+LOOKUP_METHODS = ("resolve_or_missing", "resolve", "__getitem__", "get", "__contains__")
+
+
+def is_template_code(frame):
+    """A frame of code generated from a template: module globals made by the compiler
+    (`name`, `blocks`, `environment`), not a python module."""
+    g = frame.f_globals
+    return "__name__" not in g and "name" in g and "blocks" in g
+
+
+def attribute(ctxobj, frame):
+    """Who performed a lookup on context `ctxobj`, given the frame that called the Context method.
+
+    - template code calling directly: that template (as before);
+    - engine code (jinja2.*) calling: walk up to the nearest template-code frame; if that code works
+      on this very context (its `context` variable is ctxobj) the lookup is made on its behalf,
+      otherwise (another template's code, e.g. an importer executing {% import %}, or the
+      harness calling template.module / make_module) the engine is building something for the
+      template the context belongs to: context.name.
+    Returns (template name, via) with via in 'code' | 'engine-for-code' | 'engine-for-context'."""
+    if is_template_code(frame):
+        return frame.f_globals.get("name"), "code"
+    f = frame
+    while f is not None:
+        if is_template_code(f):
+            if f.f_locals.get("context") is ctxobj:
+                return f.f_globals.get("name"), "engine-for-code"
+            break
+        f = f.f_back
+    return ctxobj.name, "engine-for-context"
+
+
+def make_recording_env(case, is_async, log_lookups, log_loads, stats=None):
     from jinja2.runtime import Context
 
-    class RecContext(Context):
-        def resolve_or_missing(self, key):
-            f = sys._getframe(1)
-            asker = f.f_globals.get("name") if f.f_code.co_filename.startswith("<") or "name" in f.f_globals else None
-            if f.f_globals.get("__name__", "").startswith("jinja2"):
-                asker = None  # engine-internal lookup (e.g. Context.resolve), not generated code
-            log_lookups.append((asker, key))
-            return super().resolve_or_missing(key)
+    stats = stats if stats is not None else {}
+
+    def recording(method):
+        base = getattr(Context, method)
+
+        def wrapper(self, key, *a, **k):
+            # only the outermost call of a lookup is an event (get -> __getitem__ -> resolve_or_missing ...)
+            if getattr(self, "_vt_depth", 0) == 0:
+                asker, via = attribute(self, sys._getframe(1))
+                log_lookups.append((asker, key, method, via))
+            self._vt_depth = getattr(self, "_vt_depth", 0) + 1
+            try:
+                return base(self, key, *a, **k)
+            finally:
+                self._vt_depth -= 1
+        wrapper.__name__ = method
+        return wrapper
+
+    def get_exported(self):
+        stats["module_builds"] = stats.get("module_builds", 0) + 1
+        stats.setdefault("module_build_names", set()).add(self.name)
+        return Context.get_exported(self)
+
+    ns = {m: recording(m) for m in LOOKUP_METHODS}
+    ns["get_exported"] = get_exported
+    RecContext = type("RecContext", (Context,), ns)
 
     env = corpus.make_env(case, enable_async=is_async)
     env.context_class = RecContext
@@ -53,11 +103,33 @@ def make_recording_env(case, is_async, log_lookups, log_loads):
     return env
 
 
+def judge_lookups(ctx, case, is_async, env, srcs, static_vars, lookups, phase, seen):
+    for asker, key, method, via in lookups:
+        ctx.count("lookups_via:" + via)
+        if method != "resolve_or_missing":
+            ctx.count("lookups_by_other_methods")
+        if asker is None or asker not in static_vars:
+            ctx.count("lookup_events_unattributed")
+            continue
+        if (asker, key, via) in seen:
+            continue
+        seen.add((asker, key, via))
+        ctx.count("distinct_keys_checked")
+        if key in static_vars[asker] or key in env.globals:
+            continue
+        where = construct_of(srcs[asker], key) if via == "code" else via + ":" + method
+        ctx.violation("undeclared-missed:" + where + ("" if phase == "render" else "/" + phase),
+                      f"[{phase}] template {asker!r} ({via}, Context.{method}) looked up {key!r} at run time but "
+                      f"find_undeclared_variables reports {sorted(static_vars[asker])} | source={srcs[asker]!r} "
+                      f"| all sources={srcs!r}",
+                      {"case": case, "async": is_async})
+
+
 def check_case(ctx, case, is_async):
     from jinja2 import meta
 
-    lookups, loads = [], []
-    env = make_recording_env(case, is_async, lookups, loads)
+    lookups, loads, stats = [], [], {}
+    env = make_recording_env(case, is_async, lookups, loads, stats)
     srcs = corpus.sources(case)
     static_vars, static_refs = {}, {}
     for n, s in srcs.items():
@@ -74,20 +146,7 @@ def check_case(ctx, case, is_async):
     ctx.count("lookup_events", len(lookups))
     ctx.count("load_events", len(loads))
     seen = set()
-    for asker, key in lookups:
-        if asker is None or asker not in static_vars:
-            ctx.count("lookup_events_unattributed")
-            continue
-        if (asker, key) in seen:
-            continue
-        seen.add((asker, key))
-        ctx.count("distinct_keys_checked")
-        if key in static_vars[asker] or key in env.globals:
-            continue
-        ctx.violation("undeclared-missed:" + construct_of(srcs[asker], key),
-                      f"template {asker!r} looked up {key!r} at run time but find_undeclared_variables "
-                      f"reports {sorted(static_vars[asker])} | source={srcs[asker]!r}",
-                      {"case": case, "async": is_async})
+    judge_lookups(ctx, case, is_async, env, srcs, static_vars, lookups, "render", seen)
     for parent, fn, names in loads:
         if parent not in static_refs:
             continue
@@ -103,8 +162,44 @@ def check_case(ctx, case, is_async):
         ctx.violation("referenced-missed:" + fn,
                       f"template {parent!r} loaded {wanted!r} but find_referenced_templates reports {refs!r} "
                       f"| source={srcs[parent]!r}", {"case": case, "async": is_async})
+    ctx.count("module_builds_during_render", stats.get("module_builds", 0))
+    ctx.count("import_target_modules_observed", len(stats.get("module_build_names", ())))
     if lookups:
         ctx.dist(corpus.shape(case))
+    check_modules(ctx, case, is_async, env, srcs, static_vars, lookups, stats)
+
+
+def check_modules(ctx, case, is_async, env, srcs, static_vars, lookups, stats):
+    """Every template of the set turned into a module by the API: template.module (sync),
+    make_module() and make_module(vars) (or make_module_async): the same soundness demand for the
+    lookups performed while the module is built."""
+    data = corpus.realize_data(case, env)
+    for ti, n in enumerate(srcs):
+        t = util.capture(lambda: env.get_template(n))
+        if not t.ok:
+            continue
+        t = t.value
+        if is_async:
+            forms = [("make_module_async", lambda: util.run_async(t.make_module_async())),
+                     ("make_module_async(vars)", lambda: util.run_async(t.make_module_async(dict(data))))]
+            forms = forms[(ti + ctx.evaluations) % 2:][:1]
+        else:
+            forms = [("module", lambda: t.module), ("make_module", lambda: t.make_module()),
+                     ("make_module(vars)", lambda: t.make_module(dict(data)))]
+            forms = forms[:1] + forms[1 + (ti + ctx.evaluations) % 2:][:1]
+        for phase, fn in forms:
+            del lookups[:]
+            before = stats.get("module_builds", 0)
+            o = util.capture(lambda: str(fn()))
+            ctx.ev()
+            ctx.count("module_constructions")
+            ctx.count("module_constructions:" + phase)
+            if o.ok:
+                ctx.count("module_constructions_ok")
+            ctx.count("module_lookup_events", len(lookups))
+            ctx.count("lookup_events", len(lookups))
+            ctx.count("module_builds_by_api", stats.get("module_builds", 0) - before)
+            judge_lookups(ctx, case, is_async, env, srcs, static_vars, lookups, phase.split("(")[0], set())
 
 
 def construct_of(src, key):
